@@ -630,38 +630,80 @@ fn lub(m: &Model, ctx: &mut Ctx) {
 }
 
 fn literal(m: &Model, ctx: &mut Ctx) {
-    // value_to_tokens: the LinkedIntValue arm
+    // value_to_tokens on a LinkedIntValue: evaluated for every integer type at the ends of its range (and around 2^63 for the
+    // 64-bit types): the literal written denotes the value, carries no suffix of another type, and the arbitrary-precision
+    // type gets `Integer::from(<literal with a suffix wide enough>)` (an unsuffixed literal is an i32 to rustc)
     if let Some(f) = anchor_fn(m, ctx, "C06.literal", Some("Rasn"), "value_to_tokens", None) {
-        let mut found = false;
-        for mt in model::matches_in(&f.block) {
-            if tok(&mt.expr) == "integer_type" {
-                found = true;
-                let consts = const_resolver(m);
-                let ev = Evaluator { consts: &consts, call_hook: &crate::eval::no_hook, inline: None };
-                let variants = m.find_enum("IntegerType").map(|e| e.variants.clone()).unwrap_or_default();
-                for v in &variants {
-                    ctx.oblige("C06.literal", &format!("render({})", v), true);
-                    match ev.select_arm(&mt, &Val::ctor(v), &Env::new()) {
-                        Ok((i, _)) => {
-                            let body = tok(&mt.arms[i].body);
-                            let unb = v == "Unbounded";
-                            let ok = if unb {
-                                body.contains("Literal::i128_suffixed(*value)") && body.contains("quote!(Integer::from(#val))")
-                            } else {
-                                body.contains("Literal::i128_unsuffixed(*value)") && !body.contains("Integer::from")
-                            };
-                            if !ok {
-                                ctx.violate("C06.literal", &format!("render({})", v), &f.file, span_line(&mt.arms[i]),
-                                    &format!("an integer value of type {} is rendered by `{}`; expected {}", v, body.chars().take(120).collect::<String>(), if unb { "Integer::from(<i128-suffixed literal>)" } else { "an unsuffixed literal of the declared fixed-width type" }));
-                            }
-                        }
-                        Err(e) => ctx.fail_closed("C06.literal", &e),
+        let consts = const_resolver(m);
+        let range_of = |t: &str| -> Option<(i128, i128)> {
+            Some(match t {
+                "i8" => (i8::MIN as i128, i8::MAX as i128), "u8" => (0, u8::MAX as i128), "i16" => (i16::MIN as i128, i16::MAX as i128), "u16" => (0, u16::MAX as i128),
+                "i32" => (i32::MIN as i128, i32::MAX as i128), "u32" => (0, u32::MAX as i128), "i64" => (i64::MIN as i128, i64::MAX as i128), "u64" => (0, u64::MAX as i128),
+                "i128" | "isize" | "usize" | "u128" => (i128::MIN, i128::MAX),
+                _ => return None,
+            })
+        };
+        let hook = |_: &Evaluator, name: &str, a: &[Val]| -> Option<Result<Val, String>> {
+            if let Some(rest) = name.strip_prefix("Literal::") {
+                // Literal::<ty>_suffixed / _unsuffixed: the argument has the type <ty> (a cast in the argument has been applied)
+                let (ty, suffixed) = match rest.split_once('_') { Some((t, "suffixed")) => (t, true), Some((t, "unsuffixed")) => (t, false), _ => return None };
+                let (lo, hi) = range_of(ty)?;
+                return match a.first() {
+                    Some(Val::Int { v, .. }) if *v >= lo && *v <= hi => Some(Ok(Val::Sym(format!("{}{}", v, if suffixed { ty } else { "" })))),
+                    Some(Val::Int { v, .. }) => Some(Err(format!("{} does not fit the argument type of Literal::{}", v, rest))),
+                    _ => None,
+                };
+            }
+            match name {
+                ".into_token_stream" | ".to_token_stream" | ".clone" if a.len() == 1 => Some(Ok(a[0].clone())),
+                _ => None,
+            }
+        };
+        let ev = Evaluator { consts: &consts, call_hook: &hook, inline: None };
+        let params: Vec<String> = f.sig.inputs.iter().filter_map(|a| match a { syn::FnArg::Typed(t) => Some(tok(&t.pat)), _ => None }).collect();
+        let variants = m.find_enum("IntegerType").map(|e| e.variants.clone()).unwrap_or_default();
+        if variants.is_empty() {
+            ctx.fail_closed("C06.literal", "enum IntegerType not found");
+        }
+        for v in &variants {
+            ctx.oblige("C06.literal", &format!("render({})", v), true);
+            let rust = match v.as_str() { "Int8" => "i8", "Uint8" => "u8", "Int16" => "i16", "Uint16" => "u16", "Int32" => "i32", "Uint32" => "u32", "Int64" => "i64", "Uint64" => "u64", _ => "" };
+            let values: Vec<i128> = match range_of(rust) {
+                Some((lo, hi)) => { let mut x = vec![lo, hi, 0, 1]; if rust == "u64" { x.push(1i128 << 63); x.push((1i128 << 63) - 1); } if lo < 0 { x.push(-1); } x }
+                None => vec![0, -1, 7, i32::MAX as i128 + 1, i64::MAX as i128, i64::MAX as i128 + 1, u64::MAX as i128 + 1, -(1i128 << 100), 1i128 << 100],
+            };
+            for val in values {
+                let mut fl = BTreeMap::new();
+                fl.insert("integer_type".to_string(), Val::ctor(v));
+                fl.insert("value".to_string(), Val::int(val));
+                let mut env = Env::new();
+                env.insert("self".into(), Val::ctor("Rasn"));
+                env.insert(params.first().cloned().unwrap_or("value".into()), Val::Ctor("LinkedIntValue".into(), vec![], fl));
+                env.insert(params.get(1).cloned().unwrap_or("type_name".into()), Val::none());
+                let got = match ev.eval_fn_body(&f.block, &mut env) {
+                    Ok(Val::Ctor(ok, p, _)) if ok == "Ok" => Ok(p.first().map(|x| match x { Val::Sym(s) | Val::Str(s) => s.clone(), o => o.show() }).unwrap_or_default().replace(' ', "")),
+                    Ok(o) => Err(format!("result {}", o.show().chars().take(80).collect::<String>())),
+                    Err(e) => Err(e),
+                };
+                let ok = match &got {
+                    Ok(text) if !rust.is_empty() => *text == val.to_string() || *text == format!("{}{}", val, rust),
+                    Ok(text) => {
+                        // Integer::from(<literal><suffix>) with a suffix type that holds the value
+                        text.strip_prefix("Integer::from(").and_then(|t| t.strip_suffix(')')).map(|lit| {
+                            let digits: String = lit.chars().take_while(|c| c.is_ascii_digit() || *c == '-').collect();
+                            let suffix = &lit[digits.len()..];
+                            digits == val.to_string() && match range_of(suffix) { Some((lo, hi)) => val >= lo && val <= hi, None => suffix.is_empty() && val >= i32::MIN as i128 && val <= i32::MAX as i128 }
+                        }).unwrap_or(false)
                     }
+                    Err(_) => false,
+                };
+                if !ok {
+                    ctx.violate("C06.literal", &format!("render({})", v), &f.file, f.line,
+                        &format!("the value {} of a type selected as {} is rendered `{}`; expected {}: every integer literal emitted fits the type it is declared with and denotes the source value", val, if rust.is_empty() { "Integer" } else { rust }, match &got { Ok(t) => t.clone(), Err(e) => format!("<{}>", e) },
+                            if rust.is_empty() { format!("Integer::from({}i128)", val) } else { format!("the literal {}", val) }));
+                    break;
                 }
             }
-        }
-        if !found {
-            ctx.fail_closed("C06.literal", "value_to_tokens: no match over integer_type");
         }
     }
     if let Some(f) = anchor_fn(m, ctx, "C06.literal", Some("Rasn"), "generate_integer_value", None) {
